@@ -54,6 +54,7 @@ struct std_pair_%(UPT)s_std_future_int { struct %(UPT)s first; struct std_future
 #define %(VT)s__emplace_back__1(v, u) vf_vt_push((v), (struct %(TR)s **)&(u)->p)
 #define %(VT)s__push_back_rv__1(v, u) vf_vt_push((v), &(u)->p)
 #define %(VIT)s__op_deref__0 vf_vit_deref
+#define %(VIT)s__op_arrow__0 vf_vit_deref
 #define %(VIT)s__op_inc__0(it) ((it)->idx = (it)->idx + 1, (it))
 #define ext_op_ne__normal_iterator_%(UPT)s_%(VT)s_ref_normal_iterator_%(UPT)s_%(VT)s_ref(a, b) ((a)->idx != (b)->idx)
 #define ext_op_eq__normal_iterator_%(UPT)s_%(VT)s_ref_normal_iterator_%(UPT)s_%(VT)s_ref(a, b) ((a)->idx == (b)->idx)
@@ -354,13 +355,13 @@ for sh, w in ((True, is_sh), (False, not_sh)):
                        decreases='localPending.size - vf_begin0.idx')}))
 
     FN.setdefault(r'deferred_guarded::do_pending_writes', []).append(dict(
-        props='C02 C06 C20', where=w, setup=SETUP,
+        props='C02 C06 C08 C20', where=w, setup=SETUP,
         requires=[PRE0 + ' && FREE(self->m_mutex) && vf_held == 0'],
         ensures=[('C06', DRAINED + ' && ' + NODRAIN, 'a drain attempt either leaves the queue alone or drains it completely (G2, G3)'),
                  ('C06', '(g_quiet && __CPROVER_old(self->m_pendingWrites.v) && g_try_failed == 0) ==> g_t_swap > 0',
                   'no stranding: with the flag raised and the object mutex available, the pending modifications are applied'),
                  ('C02 C06 C20', 'vf_held == 0 && FREE(self->m_mutex) && FREE(' + QM + ') && !vf_exc && G(self)', 'all locks released, nothing thrown'),
-                 ('C06', 'g_obj_blocks == 0 && g_direct == 0 && g_pushes == 0', 'the drain attempt never blocks on the object mutex (only try_lock)'),
+                 ('C06 C08', 'g_obj_blocks == 0 && g_direct == 0 && g_pushes == 0', 'the drain attempt never blocks on the object mutex (only try_lock): the try forms of the readers stay non-blocking'),
                  ('', EVB + ' && g_t_grant == 0 && g_t_raise == 0 && g_t_push == 0 && !g_in_task && g_try_failed >= 0 && g_try_failed <= 1 && !vf_user_threw && !g_fresh_used && g_broken == 0 && ' + CNT_OK, 'ghost frame')],
         assigns=['self->m_obj.v, self->m_obj.torn, self->m_pendingWrites, self->m_mutex, ' + Q + ', ' + QM + ', ' + SG]))
 
@@ -378,7 +379,7 @@ for sh, w in ((True, is_sh), (False, not_sh)):
                      ('C06', DRAINED + ' && ' + NODRAIN, 'the drain attempt before the acquisition keeps G2, G3'),
                      ('C06', '(g_quiet && __CPROVER_old(self->m_pendingWrites.v) && g_try_failed == 0) ==> (g_t_swap > 0 && (g_t_grant > 0 ==> g_t_grant > g_t_swap))',
                       'no stranding: accepted modifications are applied before read access is granted'),
-                     ('C02 C06', 'g_direct == 0 && g_pushes == 0 && FREE(' + QM + ') && !vf_exc && G(self) && g_obj_blocks == %d && ' % (1 if blocking else 0) + CNT_OK, 'no other effect; nothing thrown; only lock_shared() may block on the object mutex, exactly once')],
+                     ('C02 C06 C08', 'g_direct == 0 && g_pushes == 0 && FREE(' + QM + ') && !vf_exc && G(self) && g_obj_blocks == %d && ' % (1 if blocking else 0) + CNT_OK, 'no other effect; nothing thrown; only lock_shared() may block on the object mutex, exactly once')],
             assigns=['*vf_ret, self->m_obj.v, self->m_obj.torn, self->m_pendingWrites, self->m_mutex, ' + Q + ', ' + QM + ', ' + SG]))
 
     FN.setdefault(r'deferred_guarded::load', []).append(dict(
